@@ -187,6 +187,6 @@ pub fn property() -> Property {
         assumptions: &["no path is a file in one tree and a directory in the other", "an empty B-side file may be absent or empty in the result (create documents skipping empty files)"],
         pre: None,
         post: None,
-        parts: vec![Box::new(Part { name: "tree-pairs", driver: Driver::Gen(strategy, 20_000, 80_000), prop, exhaustive: false })],
+        parts: vec![Box::new(Part { name: "tree-pairs", driver: Driver::Gen(strategy, 20_000, 320_000), prop, exhaustive: false })],
     }
 }
